@@ -26,7 +26,7 @@ OtherMetrics(m) == SelectSeq(<< <<"tp", "t1", TRUE, TRUE, 8, TRUE, 60>>, <<"lat"
                              LAMBDA r : r[1] # m)
 System == << <<"g_tt", "", TRUE, TRUE, 0, TRUE, 0>>, <<"g_segc", "", TRUE, TRUE, 3, TRUE, 0>>, <<"g_segc", "", TRUE, TRUE, 4, TRUE, 0>>,
              <<"g_mseg", "", TRUE, TRUE, 5, TRUE, 0>>, <<"g_ygc", "", TRUE, TRUE, 2, TRUE, 0>>, <<"g_ygc", "", TRUE, TRUE, 3, TRUE, 0>> >>
-NoiseAll(m) == {<<>>, OtherTask(m), OtherMetrics(m), OtherTask(m) \o OtherMetrics(m) \o System}
+NoiseAll(m) == {<<>>, OtherMetrics(m), OtherTask(m) \o OtherMetrics(m) \o System}
 NoiseFew(m) == {<<>>, OtherTask(m) \o OtherMetrics(m) \o System}
 (* a dependent timing of a composite operation: service_time of the task with another operation type *)
 Foreign(m) == IF m = "svc" THEN {<<>>, << <<"svc", "t1", FALSE, TRUE, 2, FALSE, 70>> >>} ELSE {<<>>}
@@ -44,10 +44,10 @@ APInit(ms, sizes, a0s, steps) ==
 (* result documents: every system metric absent / null / 0 / positive; op_metrics absent / empty / one entry *)
 DocVals == {None, Whole(0), Rat(5, 2)}
 Op1 == [p |-> TRUE, tp |-> [min |-> Whole(0), mean |-> Rat(1, 2), med |-> Whole(0), max |-> Whole(1), unit |-> "ops/s"],
-        lat |-> [k |-> <<5000, 10000>>, v |-> <<Whole(0), Rat(5, 2)>>, mean |-> Whole(0), unit |-> "ms"],
+        lat |-> [k |-> <<5000, 10000>>, v |-> <<Whole(0), Rat(5, 2)>>, mean |-> Whole(0), unit |-> "ms", x |-> 0],
         svc |-> EmptyTable, proc |-> EmptyTable, er |-> Whole(0), dur |-> None]
 Op2 == [p |-> TRUE, tp |-> NoSummary("none"), lat |-> EmptyTable,
-        svc |-> [k |-> <<10000>>, v |-> <<Whole(3)>>, mean |-> Whole(3), unit |-> "ms"], proc |-> EmptyTable, er |-> Rat(1, 2), dur |-> Whole(7)]
+        svc |-> [k |-> <<10000>>, v |-> <<Whole(3)>>, mean |-> Whole(3), unit |-> "ms", x |-> 0], proc |-> EmptyTable, er |-> Rat(1, 2), dur |-> Whole(7)]
 DocInputs ==
     UNION {{[kind |-> "doc", doc |-> [has |-> h, g |-> g, hasOps |-> ops[1], ops |-> ops[2]]] :
               g \in {x \in [GKeys -> DocVals] : \A key \in GKeys \ h : x[key] = None},
